@@ -282,6 +282,10 @@ class RefModel:
                 o = self.assigns[a.name]
                 if _same_text(o.rhs, a.rhs) and o.comps == a.comps:
                     self.problems.append(("benign_duplicate", a.name))
+                elif _same_text(o.rhs, a.rhs) and not _DERIV.match(a.name):
+                    # the same definition repeated in another component (e.g. a shared helper constant): it belongs to both
+                    self.problems.append(("benign_duplicate_in_other_component", a.name))
+                    o.comps = tuple(sorted(set(o.comps) | set(a.comps)))
                 else:
                     self.problems.append(("duplicate", a.name))
                 continue
